@@ -28,6 +28,11 @@ STRS = gen.SIMPLE_STRS + ["http://x", "/* x */", "a // b", "*/", "/*", "it's", "
 def cases(draw):
     sk = draw(gen.programs(strs=STRS, max_depth=2, max_groups=3))
     prog, classes = sk["prog"], sk["classes"]
+    # some group labels look like comments (kept unique by a suffix)
+    for i, r in enumerate(M.returns(prog["body"])):
+        for j, g in enumerate(r["groups"]):
+            if g["lit"]["t"] == "str" and draw(st.integers(0, 3)) == 0:
+                g["lit"] = M.lit_str(draw(st.sampled_from(["http://x", "/* x */", "a // b", "*/", "/*", "//"])) + " %d_%d" % (i, j), '"')
     toks = M.program_tokens(prog)
     variants = []
     for style in draw(st.sampled_from([[None, None, "min"], [None, "lines", None, "dense-comments"], [None, None, None],
